@@ -90,6 +90,11 @@ func (c *AesCipher) Decrypt(cipherTextWithIv []byte) ([]byte, error) {
 		return nil, fmt.Errorf("failed to create GCM: %w", err)
 	}
 
+	// gcm.Open panics on a nonce of the wrong size; a hostname is untrusted input.
+	if len(iv) != gcm.NonceSize() {
+		return nil, fmt.Errorf("invalid IV length: expected %d bytes, got %d", gcm.NonceSize(), len(iv))
+	}
+
 	// Decrypt the data
 	plainText, err := gcm.Open(nil, iv, cipherText, nil)
 	if err != nil {
